@@ -112,7 +112,7 @@ impl Campaign for C02c {
         "C02"
     }
     fn rule(&self) -> &'static str {
-        "seeded scenarios: grammar-directed request heads (nine standard methods and extension tokens incl. lower-case look-alikes, visible-ASCII targets up to 3000 bytes, HTTP/1.0 and 1.1, 0..64 header fields with duplicates in other letter cases, empty values, colons and inner whitespace, OWS around values, values up to 1600 bytes) on 1-2 connections, TCP-like and UNIX-like listeners, delivered under generated segmentations (whole, fixed 1/7/1023/1024/1025, random cuts) through the real accept/pool/queue/recv path; non-trivial = the head is longer than the 1024-byte read buffer or has duplicate/empty-valued headers; distinct = interleaving fingerprint"
+        "seeded scenarios: grammar-directed request heads (nine standard methods and extension tokens incl. lower-case look-alikes, visible-ASCII targets up to 3000 bytes, HTTP/1.0 and 1.1, 0..64 header fields with duplicates in other letter cases, empty values, colons and inner whitespace, OWS around values, values up to 1600 bytes) on 1-2 connections, TCP-like and UNIX-like listeners, delivered under generated segmentations (whole, fixed 1/7/1023/1024/1025, random cuts) through the real accept/pool/queue/recv path; one run in ten is preceded by 4..8 clients that vanish in the middle of a head line (the same pool workers then serve the connections under test), one in 25 is a long-lived connection with 80..200 requests; non-trivial = the head is longer than the 1024-byte read buffer or has duplicate/empty-valued headers; distinct = interleaving fingerprint"
     }
     fn runs(&self, tier: Tier) -> u64 {
         match tier {
@@ -155,6 +155,24 @@ impl Campaign for C02c {
                 sc.programs.insert(id.clone(), Program::respond(200, token_body(&id, 5)));
             }
             sc.conns.push(ConnScript { steps: segment(&msgs, Seg::Fixed(*g.pick(&[4096usize, 60000])), 0, &mut g), coalesce: true, ..Default::default() });
+        }
+        if index % 10 == 7 {
+            // earlier clients that vanish in the middle of a head line: 4..8 connections (one per
+            // pool worker and more) send a prefix cut inside a line and leave; the connections
+            // under test arrive a second later and are served by the same workers
+            for c in sc.conns.iter_mut() {
+                c.open_at = SEC;
+            }
+            for _ in 0..g.usize(4, 8) {
+                let full = Req::get("zz").header("X-Junk", "junk value").bytes();
+                let cut = *g.pick(&[1usize, 2, 3, 5, 9, 14, 20, 27, 40]);
+                let end = match g.below(3) {
+                    0 => ClientStep::HalfClose,
+                    1 => ClientStep::Reset,
+                    _ => ClientStep::Close { budget: 0, reset_err: false },
+                };
+                sc.conns.push(ConnScript { steps: vec![ClientStep::Send(B(full[..cut.min(full.len() - 1)].to_vec())), ClientStep::Pause(MS), end], ..Default::default() });
+            }
         }
         sc.receivers = loop_receivers(g.usize(1, 2), Dispatch::Inline);
         sc.note = format!("C02 index {}", index);
@@ -232,7 +250,7 @@ impl Campaign for C03c {
         "C03"
     }
     fn rule(&self) -> &'static str {
-        "seeded scenarios: requests with Content-Length N in {0,1,2,1023,1024,1025,2047,2048,2049,10000,70000}, chunked bodies with generated chunkings (sizes 1..9000, hex case, leading zeros, extensions), both headers together, header-name case variants, Connection: upgrade (body = rest of the stream until the client half-closes), each followed by a pipelined marker request; the application reads with generated size sequences (all 1s, random 1..4096, exactly N, larger than N, one huge) to the first Ok(0) and once more; generated segmentation incl. cuts inside chunk-size lines and at N; non-trivial = the body is non-empty and read with more than one read call; distinct = interleaving fingerprint"
+        "seeded scenarios: requests with Content-Length N in {0,1,2,1023,1024,1025,2047,2048,2049,10000,70000}, chunked bodies with generated chunkings (sizes 1..9000, hex case, leading zeros, extensions), both headers together, header-name case variants, Connection: upgrade (body = rest of the stream until the client half-closes), each followed by a pipelined marker request, or (one run in twelve) a Content-Length body cut short by the client closing its sending side (a buffered body: never delivered; a streamed one: exactly the bytes sent, then end-of-stream); the application reads with generated size sequences (all 1s, random 1..4096, exactly N, larger than N, one huge) to the first Ok(0) and once more; generated segmentation incl. cuts inside chunk-size lines and at N; non-trivial = the body is non-empty and read with more than one read call; distinct = interleaving fingerprint"
     }
     fn runs(&self, tier: Tier) -> u64 {
         match tier {
@@ -291,7 +309,14 @@ impl Campaign for C03c {
             }
         }
         let marker = Req::get("c0r1").bytes();
-        let msgs = vec![rq.bytes(), marker];
+        let mut msgs = vec![rq.bytes(), marker];
+        // one run in twelve: the client's stream ends (orderly) inside a Content-Length body
+        let truncated = index % 12 == 1 && tag == "content-length" && len > 0;
+        if truncated {
+            let whole = rq.bytes();
+            let keep = whole.len() - len + g.usize(0, len - 1);
+            msgs = vec![whole[..keep].to_vec()];
+        }
         let seg = match g.below(6) {
             0 => Seg::Whole,
             1 => Seg::Fixed(*g.pick(&[1usize, 2, 3])),
@@ -301,7 +326,7 @@ impl Campaign for C03c {
         };
         let mut c = ConnScript { steps: segment(&msgs, seg, *g.pick(&[0u64, 0, MS / 10]), &mut g), ..Default::default() };
         c.coalesce = g.chance(1, 2);
-        if upgrade {
+        if upgrade || truncated {
             c.steps.push(ClientStep::HalfClose);
         }
         sc.conns.push(c);
@@ -322,7 +347,7 @@ impl Campaign for C03c {
         }
         sc.programs.insert("c0r1".into(), Program::respond(200, b"m".to_vec()));
         sc.receivers = loop_receivers(1, if g.chance(1, 2) { Dispatch::Spawn } else { Dispatch::Inline });
-        sc.note = format!("C03 index {} framing={} len={}", index, tag, len);
+        sc.note = format!("C03 index {} framing={} len={}{}", index, tag, len, if truncated { " truncated" } else { "" });
         sc
     }
     fn check(&self, sc: &Scenario, out: &RunOut) -> Verdict {
@@ -346,6 +371,20 @@ impl Campaign for C03c {
             Ev::StreamRead { id: i, data, eof } if *i == id => Some((data.clone(), *eof, None::<String>, 3usize)),
             _ => None,
         });
+        if !m.deliverable() {
+            // a body that is buffered before delivery and was cut short by end-of-stream: there is
+            // nothing to deliver, least of all bytes the client never sent
+            if let Some(h) = &head {
+                v.violations.push(Violation {
+                    clause: "C03.body_bytes".into(),
+                    signature: format!("{}: a request whose body was cut short by end-of-stream is delivered", framing),
+                    detail: format!("{}: the client sent {} of the {} declared body bytes and closed its sending side; the request was handed to the application (body_length {:?}, bytes read {:?})", sc.note, m.body.len(), sc.note.split("len=").nth(1).and_then(|s| s.split(' ').next()).unwrap_or("?"), h.body_length, br.as_ref().map(|b| b.0 .0.len())),
+                });
+            }
+            v.nontrivial = true;
+            v.tags.push(format!("framing={} truncated", framing));
+            return v;
+        }
         let (data, eof, err, reads) = match br.or(stream_read) {
             Some(b) => b,
             None => {
